@@ -131,6 +131,9 @@ const (
 	verifC07kSubShell  // result of ${...}: text + exit number
 	verifC07kUndefined // a variable look-up that failed
 	verifC07kinds
+	// only offered where asked for explicitly (VerifC07Elvis): the value of an `int` / `bool`-less typed
+	// variable - parseVarScalarExpr's closure hands the operators a Go int, not a float64
+	verifC07kIntVar = verifC07kinds
 )
 
 var verifC07numbers = []float64{0, 1, -1, 0.5, 2}
@@ -143,6 +146,7 @@ type verifC07operand struct {
 	b      bool
 	s      string
 	f      float64
+	i      int
 	exit   int
 }
 
@@ -201,6 +205,14 @@ func verifC07mkOperand(name string, pos int, n int, symbolic bool, kinds int) *v
 			func() (*primitives.Value, error) { // shape of execSubShellScalar's result
 				return &primitives.Value{Value: s, DataType: types.String, ExitNum: exit}, nil
 			})}
+	case verifC07kIntVar:
+		o.i = rt.IntRange(name+"-int", -1000, 1000)
+		o.truthy = o.i != 0
+		i := o.i
+		o.node = &astNodeT{key: symbols.Scalar, pos: pos, dt: primitives.NewFunction(
+			func() (*primitives.Value, error) { // shape of parseVarScalarExpr's closure for `set int v=...; $v`
+				return &primitives.Value{Value: i, DataType: types.Integer}, nil
+			})}
 	case verifC07kUndefined:
 		o.isNull = true
 		o.node = &astNodeT{key: symbols.Scalar, pos: pos, dt: primitives.NewFunction(
@@ -225,6 +237,9 @@ func verifC07same(got any, o *verifC07operand) bool {
 	case verifC07kNumber:
 		v, ok := got.(float64)
 		return ok && v == o.f
+	case verifC07kIntVar:
+		v, ok := got.(int)
+		return ok && v == o.i
 	}
 	return false
 }
@@ -269,7 +284,7 @@ func VerifC07AndOr() {
 // VerifC07Elvis: a ?: b and a ?? b, text operands symbolic (0..n bytes), exit numbers symbolic.
 func VerifC07Elvis() {
 	n := rt.Param("n")
-	a := verifC07mkOperand("a", 0, n, true, verifC07kinds)
+	a := verifC07mkOperand("a", 0, n, true, verifC07kinds+1)    // incl. the value of an int variable
 	b := verifC07mkOperand("b", 2, n, true, verifC07kUndefined) // b: any defined operand
 	isElvis := rt.Choice("operator", 2) == 0
 	op := symbols.NullCoalescing
